@@ -366,6 +366,7 @@ func New(opt Options) *World {
 	if opt.PostGenesis != nil {
 		opt.PostGenesis(w, gr)
 	}
+	rec.ResetHooks = append(rec.ResetHooks, w.ColdCache)
 	return w
 }
 
@@ -417,7 +418,6 @@ func (w *World) BeginBlock(on ...*block.Block) *block.Block {
 	prev := w.Head
 	if len(on) > 0 && on[0] != nil {
 		prev = on[0]
-		w.ColdCache()
 	}
 	b := block.NewBlock(w.Chain.GetKey(), prev.Round+1)
 	b.MinerID = w.Miners[0].ID
@@ -433,8 +433,8 @@ func (w *World) BeginBlock(on ...*block.Block) *block.Block {
 	return b
 }
 
-// ColdCache gives the chain a fresh (empty) state cache, as a node has after a restart. Every fork from an
-// explicit base block starts with one: the harness forks hundreds of histories from one base block, while the
+// ColdCache gives the chain a fresh (empty) state cache, as a node has after a restart. Every trace starts
+// with one (world.New registers it in rec.ResetHooks): the harness forks hundreds of histories from one base block, while the
 // cache keeps only the last 200 blocks' values per key and, on a miss in a block, falls through to older
 // ancestors - after enough sibling forks the base block's entry is evicted and a still older ancestor's value
 // would be served to the new fork. That is an artefact of the fan-out (a real fork that old is long finalised
